@@ -28,12 +28,15 @@ func TestC10NeverWedges(t *testing.T) {
 			"pubrel-write-parked", "dialing", "handshake", "resending", "foreign-writer-parked", "foreign-writer-parked", "skipping-dup-big", "holding-big-tail-outstanding"}).Draw(rt, "readerState")
 		h.Act("reader state %s", state)
 		var pending []*sim.Call
+		silentHandshake := false
 		switch state {
 		case "dialing":
 			h.ScriptDial(sim.DialOutcome{Kind: sim.DialPark})
 			h.App.Step()
 			h.MustPoll("dial parked", func() bool { return h.DialParked() > 0 })
 		case "handshake":
+			// (the broker may stay silent for good: PauseTimeout bounds the wait)
+			silentHandshake = rapid.Bool().Draw(rt, "brokerStaysSilent")
 			h.ScriptDial(sim.DialOutcome{Connack: &sim.ConnackPolicy{Kind: sim.ConnackHold}})
 			h.App.Step()
 			h.SettleReader("handshake outstanding")
@@ -253,7 +256,7 @@ func TestC10NeverWedges(t *testing.T) {
 				for _, c := range h.AllConns() {
 					for c.ReleaseWrite() {
 					}
-					if c.AliveNow() && !c.Accepted() {
+					if c.AliveNow() && !c.Accepted() && !silentHandshake {
 						c.Break(false) // a held handshake never completes
 					}
 				}
